@@ -244,3 +244,9 @@ End Spea2.
 (* fitness.wvalues = values * weights (base.py: tuple(map(mul, values, self.weights))) *)
 Definition wvalues_of {T} (Op : numops T) (weights : list T) (vals : list (list T)) : list (list T) :=
   map (fun v => map2 (n_mul Op) v weights) vals.
+
+(* fitness.values read back = wvalues / weights (base.py getValues: tuple(map(truediv, self.wvalues, self.weights)));
+   in binary64 this is not always the assigned value when a weight is not +-1: the distances of selSPEA2 are taken
+   on what the getter returns *)
+Definition values_of {T} (Op : numops T) (weights : list T) (wvals : list (list T)) : list (list T) :=
+  map (fun wv => map2 (n_div Op) wv weights) wvals.
